@@ -4,6 +4,8 @@
 #include "model.hpp"
 #include "gen.hpp"
 #include "faultenum.hpp"
+#include <cmath>
+bool rc_defined(int rc);   // doceng.cpp
 
 enum VOp { V_CREATE, V_INIT, V_INIT_CHAR, V_COPY_CHAR, V_PARSE_NUMB, V_INIT_NUMB, V_AUTOINIT, V_SET_QUOTED, V_CLEAN, V_FREE, V_CLONE_NEW, V_CLONE_ONTO,
     V_L_COUNT, V_L_GET, V_L_SET, V_L_INSERT, V_L_REMOVE, V_T_SET, V_T_GET, V_T_REMOVE, V_T_KEYS, V_P_CREATE, V_P_NAMES, V_P_SET, V_P_GET, V_P_REMOVE, V_P_FREE,
@@ -145,11 +147,22 @@ void VRun::exec(const VOpRec &o) {
             static const double VALS[] = { 0.0, 1.0, -1.5, 12.345, 1e-7, 123456.789, 6.02214076e23, -0.001, 299792458.0 };
             double val = VALS[r.below(sizeof VALS / sizeof VALS[0])], su = r.chance(1, 2) ? 0.0 : (r.chance(1, 8) ? -1.0 : val * 0.01 + 0.003);
             if (su < 0 && val == 0) su = -1.0;
+            // a quarter of the calls use the extremes of the double range and wide scales (digit-buffer arithmetic: carries, padding,
+            // subnormals); there only memory safety, the result-code class and the validity of the value afterwards are judged
+            bool extreme = !o.simple && r.chance(1, 4);
+            if (extreme) {
+                static const double EXT[] = { 1.7976931348623157e308, -1.7976931348623157e308, 2.2250738585072014e-308, 4.9e-324, -7.0e-320, 9.999999999999999e22, 0.99999999999999989, 99999.999999999985,
+                    1e15, 1e16, 123456789012345680000.0, 0.5, 0.05, 5e-7, 9.5, 999.5, 1e-300, 8.98846567431158e307, 4503599627370496.0, 9007199254740993.0, 0.1, 1.0 / 3.0 };
+                val = EXT[r.below(sizeof EXT / sizeof EXT[0])];
+                if (su > 0) { static const double ES[] = { 1e-310, 1e300, 0.5, 9.5, 0.095, 1e-20, 99.9, 1.0 }; su = r.chance(1, 2) ? std::fabs(val) * 1e-3 : ES[r.below(8)]; if (!(su > 0)) su = 4.9e-324; }
+            }
             int rc; bool bad_arg = su < 0;
-            if (o.k == V_INIT_NUMB) { int scale = (int) r.range(-3, 6), mlz = r.chance(1, 10) ? -1 : (int) r.range(0, 6); bad_arg = bad_arg || mlz < 0; rc = fe.call("cif_value_init_numb", [&]() { return cif_value_init_numb(t.v, val, su < 0 ? su : (su > 0 ? su : 0.0), scale, mlz); }); }
+            if (o.k == V_INIT_NUMB) { int scale = extreme ? (int) r.range(-320, 340) : (int) r.range(-3, 6), mlz = r.chance(1, 10) ? -1 : (int) r.range(0, 6); bad_arg = bad_arg || mlz < 0; rc = fe.call("cif_value_init_numb", [&]() { return cif_value_init_numb(t.v, val, su < 0 ? su : (su > 0 ? su : 0.0), scale, mlz); }); }
             else { unsigned rule = r.chance(1, 10) ? 1 : (r.chance(1, 2) ? 19 : (unsigned) r.range(2, 99)); bad_arg = bad_arg || rule < 2; rc = fe.call("cif_value_autoinit_numb", [&]() { return cif_value_autoinit_numb(t.v, val, su < 0 ? su : (su > 0 ? su : 0.0), rule); }); }
             cover(o.k, rc, (uint64_t) t.m->kind * 2 + (bad_arg ? 1 : 0));
             if (bad_arg) { expect(VN[o.k], rc, {CIF_ARGUMENT_ERROR}); resync(t.root); return; }
+            if (extreme && rc != CIF_OK) { if (!rc_defined(rc)) violate("rc", strprintf("%s:undefined", VN[o.k]), strprintf("%s returned the undefined code %d", VN[o.k], rc)); g_stats.inc("value.extreme_number_refused"); resync(t.root); return; }
+            if (extreme) g_stats.inc("value.extreme_number_ok");
             expect(VN[o.k], rc, {CIF_OK});
             MValue s2 = snapshot_value(t.v);
             if (s2.kind != CIF_NUMB_KIND || s2.quoted || !valid_number(s2.text)) violate("structure", VN[o.k], strprintf("%s produced %s, not an unquoted number with numeric text", VN[o.k], show(s2).c_str()));
